@@ -327,6 +327,14 @@ def work(task):
     chunk, applied_a1 = task
     stats = {'configs': 0, 'nontrivial': 0, 'cyclic': 0, 'samples': []}
     viol = {}
+    if chunk == 'handover':
+        def add_h(fp, replay, detail):
+            viol.setdefault(fp, {'count': 0, 'exemplar': replay,
+                                 'detail': detail,
+                                 'size': len(S.canon(replay))})
+            viol[fp]['count'] += 1
+        handover_scenario(applied_a1, add_h, stats)
+        return stats, viol
 
     def add(fp, replay, detail):
         size = len(S.canon(replay))
@@ -346,6 +354,126 @@ def work(task):
     return stats, viol
 
 
+# ---------------------------------------------- hand-over + declared deps
+
+VH_MIG1 = """from django.db import migrations, models
+
+
+class Migration(migrations.Migration):
+    initial = True
+    dependencies = []
+    operations = [migrations.CreateModel(name='Note', fields=[
+        ('id', models.AutoField(auto_created=True, primary_key=True,
+                                serialize=False, verbose_name='ID')),
+        ('t', models.CharField(max_length=20)),
+        ('n1', models.IntegerField(null=True)),
+    ])]
+"""
+
+HANDOVER_DEPS = [
+    (),
+    (('AFTER_MIGRATIONS', ('vm', '0002_add_x')),),
+    (('AFTER_MIGRATIONS', ('vm', '0001_initial')),),
+    (('BEFORE_MIGRATIONS', ('vm', '0002_add_x')),),
+    (('BEFORE_MIGRATIONS', ('vm', '0001_initial')),),
+]
+
+
+def handover_install(final, declared):
+    """App vh is handed over to migrations by evolution h1 = [AddField n1,
+    MoveToDjangoMigrations] (its 0001_initial covers the evolved model);
+    h1 additionally DECLARES the given dependencies on the pending
+    migrations of app vm.  The dependency that MoveToDjangoMigrations
+    generates itself must be merged with the declared ones."""
+    from django_evolution.mutations import MoveToDjangoMigrations
+    note = M('Note', [F('t', 'Char', max_length=20)] +
+             ([F('n1', 'Int', null=True)] if final else []))
+    apps = [A('vh', [note])]
+    evos = {'vh': {'SEQUENCE': [], 'modules': {}}}
+    migs = None
+    if final:
+        apps.append(A('vm', [M('Doc', [F('title', 'Char', max_length=20),
+                                       F('x', 'Int', null=True)])]))
+        body = {'MUTATIONS': [
+            ML.to_real(['AddField', 'Note', 'n1', 'Int', {'null': True},
+                        None]),
+            MoveToDjangoMigrations(mark_applied=['0001_initial'])]}
+        for kind, target in declared:
+            body.setdefault(kind, []).append(tuple(target))
+        evos['vh'] = {'SEQUENCE': ['h1'], 'modules': {'h1': body}}
+        migs = {'vm': [('0001_initial', MIG1), ('0002_add_x', MIG2)],
+                'vh': [('0001_initial', VH_MIG1)]}
+    return MZ.install(P(*apps), evolutions=evos, migrations=migs)
+
+
+def handover_scenario(idx, add, stats):
+    declared = HANDOVER_DEPS[idx]
+    stats['configs'] += 1
+    stats['handover_configs'] = stats.get('handover_configs', 0) + 1
+    handover_install(False, ())
+    B.fresh_db('default')
+    B.reset_globals()
+    r = D.d2_all()
+    assert r.ok, r.exc
+    handover_install(True, declared)
+    B.reset_globals()
+    tracer = O.Tracer('default')
+    res = D.d2_all(tracer=tracer)
+    order = []
+    pending = None
+    for sql, _p in tracer.effects():
+        s_ = sql.strip()
+        if s_.startswith('CREATE TABLE "vm_doc"'):
+            order.append(('m', 'vm', '0001_initial'))
+        elif 'vm_doc' in s_ and '"x"' in s_ and \
+                ('m', 'vm', '0002_add_x') not in order:
+            order.append(('m', 'vm', '0002_add_x'))
+        elif s_.startswith('CREATE TABLE "TEMP_TABLE"'):
+            pending = s_
+        elif s_.startswith('ALTER TABLE "TEMP_TABLE" RENAME TO '
+                           '"vh_note"') and pending and '"n1"' in pending:
+            order.append(('e', 'vh', 'h1'))
+            pending = None
+        elif 'vh_note' in s_ and 'ADD COLUMN' in s_.upper() and \
+                '"n1"' in s_:
+            order.append(('e', 'vh', 'h1'))
+    shape = 'handover:' + ('+'.join(sorted(
+        '%s->%s' % (k.split('_')[0].lower(), t[1]) for k, t in declared))
+        or 'none')
+    replay = {'scenario': 'handover', 'index': idx}
+    edges = [(('m', 'vm', '0001_initial'), ('m', 'vm', '0002_add_x'))]
+    for kind, target in declared:
+        tu = ('m', target[0], target[1])
+        if kind.startswith('AFTER_'):
+            edges.append((tu, ('e', 'vh', 'h1')))
+        else:
+            edges.append((('e', 'vh', 'h1'), tu))
+    units = [('m', 'vm', '0001_initial'), ('m', 'vm', '0002_add_x'),
+             ('e', 'vh', 'h1')]
+    if not acyclic(units, edges):
+        stats['cyclic'] += 1
+        if res.ok:
+            add('C09|pipeline|unsatisfiable-dependencies-not-reported|%s'
+                % shape, replay, {'order': order})
+        return
+    if not res.ok:
+        add('C09|pipeline|satisfiable-dependencies-rejected|%s|%s' % (
+            res.exc_type, shape), replay, {'error': str(res.exc)[:300]})
+        return
+    if sorted(order) != sorted(units):
+        add('C09|pipeline|units-not-executed-exactly-once|%s' % shape,
+            replay, {'order': order})
+        return
+    pos = {u: i for i, u in enumerate(order)}
+    for a, b in edges:
+        if pos[a] > pos[b]:
+            kinds = {'e': 'evolution', 'm': 'migration'}
+            add('C09|pipeline|dependency-violated|%s-must-precede-%s|%s' % (
+                kinds[a[0]], kinds[b[0]], shape), replay,
+                {'order': order, 'edge': [a, b]})
+            break
+
+
 def run_part(tier, seed, coll):
     from vf import bootstrap
     from vf.checks import common
@@ -357,6 +485,8 @@ def run_part(tier, seed, coll):
     singles = configs(1)
     for lo in range(0, len(singles), 12):
         tasks.append((singles[lo:lo + 12], True))
+    for i in range(len(HANDOVER_DEPS)):
+        tasks.append(('handover', i))
     total = {}
     for stats, viol in explore.run_tasks('vf.checks.c09_pipeline.work',
                                          tasks, seed=seed):
@@ -369,6 +499,18 @@ def run_part(tier, seed, coll):
 
 def replay(doc):
     r = doc['replay']
+    if r.get('scenario') == 'handover':
+        found = {}
+        handover_scenario(r['index'],
+                          lambda fp, rp, d: found.setdefault(fp, d),
+                          {'configs': 0, 'cyclic': 0})
+        for fp, d in found.items():
+            print('  %s %s' % (fp, str(d)[:500]))
+        if doc['fingerprint'] in found:
+            print('REPRODUCED %s' % doc['fingerprint'])
+            return 1
+        print('NOT-REPRODUCED')
+        return 0
     deps = []
     for h, (k, t) in r['deps']:
         deps.append(((h[0], h[1]), (k, tuple(t) if isinstance(t, list)
